@@ -22,7 +22,7 @@ done
 echo "$(wc -l < "$TMP/jobs") mutants, $W workers" >&2
 worker() {
   k=$1
-  D="$TMP/w$k"; mkdir -p "$D"; rsync -a --exclude .git /repo/ "$D/repo/"
+  D="/tmp/dcpverif-scratch/m$k"; rm -rf "$D"; mkdir -p "$D"; rsync -a --exclude .git /repo/ "$D/repo/"; case "$D" in /tmp/*) [ -f "$D/repo/go.mod" ] || { echo "scratch copy failed: $D" >&2; exit 9; };; *) echo "refusing to work outside /tmp: [$D]" >&2; exit 9;; esac   # fixed paths: build-cache friendly
   n=0
   while IFS=$'\t' read -r f idx kind line fn desc; do
     n=$((n+1)); [ $((n % W)) -eq $k ] || continue
@@ -44,5 +44,6 @@ worker() {
 rm -f "$OUT".part*
 for k in $(seq 0 $((W-1))); do worker $k & done
 wait
+rm -rf /tmp/dcpverif-scratch/m[0-9]*
 cat "$OUT".part* | sort -t$'\t' -k1,1 -k2,2n > "$OUT"; rm -f "$OUT".part*
 echo "done: $(wc -l < "$OUT") results in $OUT" >&2
